@@ -76,6 +76,11 @@ class Session:
         self.eq.status_variables[10] = self.sv
         self.dv = DataValue(30, "counter", V.U4, use_callback=False)
         self.eq.data_values[30] = self.dv
+        aux = DataValue(31, "aux", V.U2, use_callback=False)
+        aux.value = 4711
+        self.eq.data_values[31] = aux
+        self.cur_dvs = [30]        # the variables the host currently subscribes to for event 50
+        self.shape_errors = []
         self.eq.equipment_constants[20] = EquipmentConstant(20, "ec_i2", -100, 100, 5, "u", V.I2, use_callback=False)
         self.eq.alarms[100] = Alarm(100, "al100", "text one", 3, 5100, 6100)
         self.eq.alarms[101] = Alarm(101, "al101", "second", 65, 5101, 6101)
@@ -103,6 +108,8 @@ class Session:
         with self.lock:
             if ceid in (50, 21) and vals:
                 self.received.append((ceid, vals[0]))
+                if ceid == 50 and len(vals) != len(self.cur_dvs):
+                    self.shape_errors.append({"values": vals[:4], "subscribed_variables": list(self.cur_dvs)})
 
     def _on_alarm(self, data):
         with self.lock:
@@ -314,7 +321,7 @@ class Session:
             self.host_call("send_remote_command(START)", lambda: host.send_remote_command("START", []), {"HCACK": 4, "PARAMS": []})
         elif r < 0.85:
             self.host_call("are_you_there()", lambda: host.are_you_there(), None, compare=lambda g: g is not None)
-        elif r < 0.87 and self.subscribed:
+        elif r < 0.885 and self.subscribed:
             # the host removes all reports and links, then subscribes again: the events must flow as before
             self.hist.append("clear_collection_events() + subscribe again")
             _, err = self.call("clear_collection_events", lambda: host.clear_collection_events())
@@ -328,7 +335,16 @@ class Session:
                 return
             self.subscribed = False
             if not self.bad:
+                # the same report id with another list of variables
+                self.cur_dvs = [30, 31] if self.cur_dvs == [30] else [30]
                 self.subscribe()
+                if not self.bad and self.subscribed:
+                    n = next(self.counter)
+                    self.dv.value = n
+                    self.hist.append(f"trigger([50]) counter={n}")
+                    eq.trigger_collection_events([50])
+                    self.triggered.append((50, n))
+                    self.wait_events()
         elif r < 0.94 and self.subscribed:
             from secsgem.gem import CollectionEventId
 
@@ -366,7 +382,9 @@ class Session:
 
     def subscribe(self):
         self.hist.append("subscribe_collection_event(50,[30])")
-        _, err = self.call("subscribe", lambda: self.host.subscribe_collection_event(50, [30], report_id=4000))
+        dvs = list(self.cur_dvs)
+        self.hist[-1] = f"subscribe_collection_event(50,{dvs})"
+        _, err = self.call("subscribe", lambda: self.host.subscribe_collection_event(50, dvs, report_id=4000))
         if err is not None and not self.bad:
             self.violation("subscribe_collection_event-fails", error=repr(err)[:200])
             return
@@ -393,6 +411,9 @@ class Session:
             got = list(self.received)
             alarms = list(self.alarm_events)
         self.ctx.count("oracle.events_exactly_once", len(self.triggered))
+        if self.shape_errors:
+            self.violation(f"collection-event-report-does-not-carry-the-subscribed-variables:{where}", examples=self.shape_errors[:3])
+            return
         if sorted(got) != sorted(self.triggered):
             missing = [list(n) for n in self.triggered if n not in got]
             dup = [list(n) for n in sorted({n for n in got if got.count(n) > 1})]
